@@ -195,13 +195,32 @@ fn execute(exe: &str, dir: &str, id: u64, text: &str, route: &Route, opts: &[Str
         Some(text)
     } else {
         std::fs::write(&inpath, cli::raw_bytes(text)).unwrap();
-        args.push("-i".into());
-        args.push(inpath.clone());
+        match id % 3 {
+            0 => args.push(format!("--input={inpath}")),
+            1 => {
+                args.push("--input".into());
+                args.push(inpath.clone());
+            }
+            _ => {
+                args.push("-i".into());
+                args.push(inpath.clone());
+            }
+        }
         None
     };
     if route.to_file {
-        args.push("-o".into());
-        args.push(outpath.clone());
+        if id % 4 == 1 {
+            args.push(format!("--output={outpath}"));
+        } else {
+            args.push(if id % 4 == 2 { "--output" } else { "-o" }.into());
+            args.push(outpath.clone());
+        }
+    } else if route.src == "stdin" && id % 7 == 0 {
+        // "-" is the documented default of both: standard input / standard output
+        args.push("-i".into());
+        args.push("-".into());
+        args.push("--output".into());
+        args.push("-".into());
     }
     let mut run = cli::run_cli(exe, &args, stdin, Duration::from_secs(60));
     if run.timed_out {
@@ -338,11 +357,39 @@ fn emit_out(sink: &mut Sink, mode: &str, game: &str, t: &Tree, r: &Rendered, rou
         "group": group.map(|g| g.0), "group_tol": group.map(|g| g.1), "ref": refsol, "text": if r.text.len() < 4000 { r.text.clone() } else { String::new() }}));
 }
 
+/// the options as command-line words.  The help text documents a short and a long name for each and a default: every
+/// option is written `-k v`, `--name v` or `--name=v`, or left out when its value is the documented default (chosen by a
+/// hash of the option values, so that a run is reproducible from its options)
 fn opt_vec(opts: &BTreeMap<&str, String>) -> Vec<String> {
-    let mut v = Vec::new();
+    let mut h: u64 = 0xcbf2_9ce4_8422_2325;
     for (k, val) in opts.iter() {
-        v.push(format!("-{k}"));
-        v.push(val.clone());
+        for b in k.bytes().chain(val.bytes()) {
+            h = (h ^ b as u64).wrapping_mul(0x1000_0000_01b3);
+        }
+    }
+    let mut v = Vec::new();
+    for (j, (k, val)) in opts.iter().enumerate() {
+        let (long, default) = match *k {
+            "c" => ("clip-threshold", "0"),
+            "r" => ("max-regret", "0"),
+            "t" => ("max-iters", "1000"),
+            "p" => ("parallel", "0"),
+            "m" => ("method", "external"),
+            "d" => ("discount", "dcfr"),
+            other => panic!("option {other}"),
+        };
+        match (h >> (8 + 3 * j)) % 5 {
+            0 => v.push(format!("--{long}={val}")),
+            1 => {
+                v.push(format!("--{long}"));
+                v.push(val.clone());
+            }
+            2 if val == default => {}
+            _ => {
+                v.push(format!("-{k}"));
+                v.push(val.clone());
+            }
+        }
     }
     v
 }
